@@ -103,6 +103,13 @@ def table_worker(mname, which=("C02", "C03", "C04")):
             w_ext = F.apply(f_isz, [ext_op, m], {})
         except (PyExc, FoldError) as e:
             w_ext = "raises %s" % e
+    if ext_op is not None:
+        # the decoder recognises the prefix by its *name*: the slot the table calls EXTENDED_ARG must carry that name, and the table's EXTENDED_ARG constant must be that slot
+        nm_at = opname[ext_op] if ext_op < len(opname) else None
+        ob("C02", "R3", DEC, "EXTENDED_ARG:prefix-slot-is-named", nm_at == "EXTENDED_ARG" and ns.get("EXTENDED_ARG") == ext_op, "opname[%d] == 'EXTENDED_ARG' == name of opc.EXTENDED_ARG" % ext_op,
+           {"opname[opmap['EXTENDED_ARG']]": nm_at, "EXTENDED_ARG": ns.get("EXTENDED_ARG")},
+           msg="%s: opmap says EXTENDED_ARG is %d but opname[%d] is %r (EXTENDED_ARG constant %r): the decoder, which tests the name, does not fold the prefix into the next operand" % (
+               short, ext_op, ext_op, nm_at, ns.get("EXTENDED_ARG")))
     n_ops = 0
     for nm, K in sorted(opmap.items(), key=lambda t: t[1]):
         if K >= 256 or not T.is_defined(m, K):
